@@ -595,6 +595,70 @@ def instantiate(items, metas, pair):
     return t
 
 
+def handler_instances(macro_src, macro_name, invoc_src):
+    """Mechanical expansion of the adapter closures of `impl_handler!`: the macro has ONE rule `($($t:ty),*) => { paste::paste! { .. } }` whose
+    items contain `fn into_function(self) -> Function { Box::new(move |_ftx| { BODY }) }`.  For every invocation `impl_handler!(C1, .., Cn);`
+    and every such closure, BODY is instantiated textually: `$( .. )*` repetitions over the type list, `$t` -> Ci,
+    `[<arg_ $t:lower>]` -> arg_ci (what paste does), and the captured `self` is named `this`.
+    Returns [(types, variant, body_text, first_line_of_body_in_macro_file)]."""
+    msk = mask(macro_src)
+    m = re.search(r'macro_rules!\s+' + re.escape(macro_name) + r'\s*\{', msk)
+    if not m:
+        raise SliceError('macro %s not found' % macro_name)
+    b0 = m.end() - 1
+    b1 = match_close(msk, b0)
+    closures = []
+    for cm in re.finditer(r'Box::new\(move \|_ftx\|\s*\{', msk[b0:b1]):
+        o = b0 + cm.end() - 1
+        c = match_close(msk, o)
+        closures.append((macro_src[o + 1:c], macro_src.count('\n', 0, o + 1) + 1))
+    if not closures:
+        raise SliceError('macro %s: no adapter closure found' % macro_name)
+    invs = []
+    im = mask(invoc_src)
+    for iv in re.finditer(r'(?m)^\s*' + re.escape(macro_name) + r'!\s*\(([^)]*)\)\s*;', im):
+        invs.append([t.strip() for t in iv.group(1).split(',') if t.strip()])
+    out = []
+    for types in invs:
+        for body, line in closures:
+            t = body
+            while True:
+                bm = mask(t)
+                r = bm.find('$(')
+                if r < 0:
+                    break
+                rc = match_close(bm, r + 1)
+                if t[rc + 1:rc + 2] != '*':
+                    raise SliceError('macro %s: unsupported repetition' % macro_name)
+                inner = t[r + 2:rc]
+                rep = ''.join(inner.replace('[<arg_ $t:lower>]', 'arg_' + ty.lower()).replace('$t', ty) for ty in types)
+                t = t[:r] + rep + t[rc + 2:]
+            variant = 'ctx' if re.search(r'\bself\(\s*_ftx\b', t) else 'plain'
+            t = re.sub(r'\bself\(', 'this(', t)
+            out.append((types, variant, t, line))
+    return out
+
+
+def handler_contract(types, variant):
+    """the contract of one adapter, written once for every arity: the extractors of the declared parameter types run in declaration order,
+    each on the context the previous one left; the first failing extractor's error is the result and the host function is not consulted;
+    otherwise the host function is invoked with exactly the extracted data and its result converted"""
+    n = len(types)
+    def step(i, ctx, args):
+        if i == n:
+            tup = '(' + ''.join(a + ', ' for a in ((['&' + ctx] if variant == 'ctx' else []) + args)) + ')'
+            return '(exists|r: R| #[trigger] this.ensures(%s, r) && res == r.irr_spec()) && *final(_ftx) == %s' % (tup, ctx)
+        return ('match %s::fc_spec(%s) { (Err(e), c) => res == Err::<Value, ExecutionError>(e) && *final(_ftx) == c, (Ok(a%d), c%d) => %s }'
+                % (types[i], ctx, i + 1, i + 1, step(i + 1, 'c%d' % (i + 1), args + ['a%d' % (i + 1)])))
+    if variant == 'ctx':
+        req = 'forall|c: &FunctionContext, %s| #[trigger] this.requires((c, %s))' % (', '.join('a%d: %s' % (k + 1, t) for k, t in enumerate(types)) or 'u: ()', ''.join('a%d, ' % (k + 1) for k in range(n)))
+        if n == 0:
+            req = 'forall|c: &FunctionContext| #[trigger] this.requires((c,))'
+    else:
+        req = ('forall|%s| #[trigger] this.requires((%s))' % (', '.join('a%d: %s' % (k + 1, t) for k, t in enumerate(types)), ''.join('a%d, ' % (k + 1) for k in range(n)))) if n else 'this.requires(())'
+    return req, step(0, '*old(_ftx)', [])
+
+
 class Weaver:
     def __init__(self, repo, verif=VERIF):
         self.repo = repo
@@ -637,6 +701,8 @@ class Weaver:
                     self._unit(None, 'verify', w, auto=(file, segs, k))
             elif s.startswith('//@consts '):
                 self._consts(s[len('//@consts '):].strip(), w)
+            elif s.startswith('//@verify-handlers '):
+                self._handler_units(s[len('//@verify-handlers '):].strip(), w)
             elif s.startswith('//@verify-macro '):
                 self._macro_units(s[len('//@verify-macro '):].strip(), w)
             elif s.startswith('//@verify-if-present '):
@@ -705,6 +771,36 @@ class Weaver:
             open(tmp, 'w').write(inst)
             self._unit(None, 'verify', w, spec_path=tmp)
             w.units[-1]['macro_instance'] = '%s!(%s => %s) expanded mechanically from %s (invoked in %s)' % (name, pair[0], pair[1], deff, invf)
+
+    def _handler_units(self, spec, w):
+        """`//@verify-handlers <macro> in <def file> invoked in <file> props <P..>`: one unit per adapter closure and invocation (R28: the body
+        of `Box::new(move |_ftx| { .. })` emitted as a generic function of the captured `self` (named `this`) and the closure parameter)"""
+        mm = re.match(r'(\w+) in (\S+) invoked in (\S+) props (.*)$', spec)
+        if not mm:
+            raise SliceError('bad verify-handlers line: %s' % spec)
+        name, deff, invf, props = mm.group(1), mm.group(2), mm.group(3), mm.group(4).split()
+        for k, (types, variant, body, line) in enumerate(handler_instances(self.src(deff).text, name, self.src(invf).text)):
+            n = len(types)
+            fn = 'adapter_%s_%d' % (variant, n)
+            gen = ''.join(t + ', ' for t in types)
+            fsig = 'Fn(%s%s) -> R' % ('&FunctionContext, ' if variant == 'ctx' else '', ', '.join(types))
+            where = 'F: %s, %sR: IntoResolveResult' % (fsig, ''.join('%s: FromContext, ' % t for t in types))
+            text = 'pub fn %s<F, %sR>(this: &F, _ftx: &mut FunctionContext) -> ResolveResult where %s {%s}\n' % (fn, gen, where, body)
+            syn = '%s#%s!#%s' % (deff, name, fn)
+            S = Source(syn, text)
+            S.line_base = line - 1
+            self.sources[syn] = S
+            req, ens = handler_contract(types, variant)
+            vs = ['unit handlers.%s' % fn, 'source %s :: fn %s' % (syn, fn), 'props-safety C02', 'props-internal ' + ' '.join(props),
+                  'requires [C20.adapter.the_host_function_accepts_any_arguments_of_its_declared_types]\n    ' + req,
+                  'ensures [C20.adapter.arguments_are_extracted_in_declaration_order_first_error_wins_then_the_host_function_gets_exactly_them]\n    ' + ens]
+            tmp = os.path.join(self.verif, 'build', '.vspec-handlers-%s' % fn)
+            os.makedirs(os.path.dirname(tmp), exist_ok=True)
+            open(tmp, 'w').write('\n'.join(vs) + '\n')
+            self._unit(None, 'verify', w, spec_path=tmp)
+            w.units[-1]['macro_instance'] = '%s!(%s): adapter closure (%s FunctionContext) expanded mechanically from %s (invoked in %s); signature synthesized (R28)' % (
+                name, ', '.join(types), 'with' if variant == 'ctx' else 'without', deff, invf)
+            w.units[-1]['rules'].append(('R28', 'closure body of Box::new(move |_ftx| ..) emitted as fn %s(this: &F, _ftx)' % fn))
 
     def _consts(self, file, w):
         S = self.src(file)
